@@ -215,7 +215,7 @@ func (s *Sched) Run(tasks []func()) {
 		case <-time.After(StallCheck):
 			if p := s.progress(); p == last {
 				stalls++
-				if stalls >= 4 {
+				if stalls >= 6 {
 					s.setAbort()
 				}
 			} else {
@@ -230,8 +230,9 @@ func (s *Sched) Run(tasks []func()) {
 //go:norace
 func (s *Sched) start(first int) { s.cur = first }
 
-// StallCheck is the real-time interval of the stall watchdog (4 intervals without a yield or pass = stall).
-var StallCheck = 2 * time.Second
+// StallCheck is the real-time interval of the stall watchdog (6 intervals = 30 s without a yield or pass = stall;
+// generous on purpose: on an overloaded machine a false stall costs the run, see Aborted).
+var StallCheck = 5 * time.Second
 
 //go:norace
 func (s *Sched) progress() uint64 { return s.Yields + uint64(len(s.Trace))<<40 }
